@@ -203,7 +203,7 @@ func (e k10Env) tag() string {
 	if cor == "" {
 		cor = "-"
 	}
-	return fmt.Sprintf("gen=%d final=%s dl=%s cor=%s", e.gen, e.finalLetter(), b2s(e.deadline), cor)
+	return fmt.Sprintf("gen=%d final=%s dl=%s cor=%s imm=%s", e.gen, e.finalLetter(), b2s(e.deadline), cor, b2s(e.immediate))
 }
 
 // k10PubCalls counts the issuer-key public-key requests x509.CreateCertificate makes before / after signing.
@@ -512,11 +512,13 @@ func runC10Kms(c *Ctx) {
 		{corrupt: "sigcrc"}, {corrupt: "sigbit"}, {corrupt: "vdata"}, {corrupt: "vdigest"},
 		{final: ksDisabled}, {final: ksDestroyed}, {final: ksGenFailed},
 		{gen: 1, deadline: true}, {gen: 2, deadline: true},
+		// created already in the final state (no generation phase): live at once, or never live
+		{immediate: true}, {immediate: true, final: ksDisabled}, {immediate: true, final: ksGenFailed},
 	}
 	var envBase []*k10Case
 	for _, e := range envs {
 		for _, ca := range cas {
-			if c.Quick() && ca == "gcslocal" && e.corrupt != "sigcrc" && e.final != ksDisabled {
+			if c.Quick() && ca == "gcslocal" && e.corrupt != "sigcrc" && e.final != ksDisabled && !e.immediate {
 				continue
 			}
 			envBase = append(envBase, &k10Case{ca: ca, hist: 0, overwrite: false, script: map[int]int{}, env: e, seed: c.Rng.Next()})
@@ -530,6 +532,11 @@ func runC10Kms(c *Ctx) {
 			continue
 		}
 		for pos := 0; pos < b.logLen; pos++ {
+			if b.env.immediate && pos < 3 {
+				// km.create, kms.create, kms.get: a run cut before the first poll has answered leaves the version
+				// in the state it was created in, which for an immediate version is not the model's "P0"
+				continue
+			}
 			for _, o := range []int{fFail, fCrash} {
 				envSingles = append(envSingles, &k10Case{ca: b.ca, hist: 0, overwrite: false, script: map[int]int{pos: o}, env: b.env, seed: c.Rng.Next()})
 			}
@@ -579,7 +586,9 @@ func runC10Kms(c *Ctx) {
 			}
 			e := k10Env{}
 			if c.Rng.Intn(3) == 0 {
-				e = envs[c.Rng.Intn(len(envs))]
+				if e = envs[c.Rng.Intn(len(envs))]; e.immediate {
+					e = k10Env{} // immediate versions only with the scripts above (faults after the first poll)
+				}
 			}
 			rnd = append(rnd, &k10Case{ca: b.ca, hist: b.hist, overwrite: b.overwrite, script: sc, env: e, seed: c.Rng.Next()})
 		}
